@@ -19,7 +19,7 @@ SRC = vlib.BASE_SRC + ["log/sink.cpp", "log/async_sink.cpp", "log/async_file_sin
 
 
 def validate(ctx, exe, args, trace, what):
-    return vlib.record_and_validate(ctx, exe, args, trace, "Log", "Trace_Log.tla", "Trace_Log.cfg", what, timeout=1500)
+    return vlib.record_and_validate(ctx, exe, args, trace, "Log", "Trace_Log.tla", "Trace_Log.cfg", what, timeout=400 if ctx.quick() else 3000)
 
 
 def run(ctx):
